@@ -223,6 +223,7 @@ class Woven:
     def contract(self, requires=(), ensures=(), decreases=None, extra=None, result='r', opens_invariants=None,
                  no_unwind=False):
         """requires/ensures: lists of (label, text)."""
+        self.last_contract = (list(requires), list(ensures))
         o, _ = self.body()
         if ensures or result:
             self.name_result(result or 'r')
